@@ -298,40 +298,74 @@ func C10(c *Ctx) {
 	const r4 = "K2.orphan-vlog-removal-guard"
 	c.Rule(r4, "valueLog.reconcileManifest removes a segment only when the manifest marks it invalid (false edge of meta.Valid) or when its fid is above the highest manifest-valid fid (false edge of fid <= threshold) and at least one valid file exists")
 	if fn := c.Fn("", "valueLog.reconcileManifest"); fn != nil {
-		rm := need(c, r4, fn, false, "Manager.Remove", Named("vlog.(*Manager).Remove"), 2)
-		for i, r := range rm {
-			g1 := false
-			for _, b := range fn.Blocks {
-				ifi := ifOf(b)
-				if ifi == nil {
-					continue
+		// the removals may live in helpers of reconcileManifest; each one is guarded by the invalid
+		// edge of meta.Valid, or – decided by order-sign evaluation – is reachable only for a fid
+		// above the value it is compared with (the highest manifest-valid fid)
+		rmM := Named("vlog.(*Manager).Remove")
+		var holders []*ssa.Function
+		for _, s := range effectSites(c, fn, func(ci ssa.CallInstruction) bool { return rmM(ci.Common()) }, 1) {
+			g := fn
+			if !rmM(s.Common()) {
+				g = StaticFn(s.Common())
+			}
+			dup := false
+			for _, h := range holders {
+				if h == g {
+					dup = true
 				}
-				// !meta.Valid  (Field of a struct value)
-				v := ifi.Cond
-				pol := true
-				if u, ok := v.(*ssa.UnOp); ok && u.Op == token.NOT {
-					v, pol = u.X, false
-				}
-				if isFieldLoad(v, "manifest.ValueLogMeta", "Valid") {
-					idx := 1 // invalid edge
-					if !pol {
-						idx = 0
+			}
+			if !dup {
+				holders = append(holders, g)
+			}
+		}
+		n := 0
+		for _, g := range holders {
+			for _, r := range Calls(g, false, rmM) {
+				n++
+				g1 := false
+				for _, b := range g.Blocks {
+					ifi := ifOf(b)
+					if ifi == nil {
+						continue
 					}
-					if EdgeDominates(b, b.Succs[idx], r.Block()) {
-						g1 = true
+					// !meta.Valid  (Field of a struct value)
+					v := ifi.Cond
+					pol := true
+					if u, ok := v.(*ssa.UnOp); ok && u.Op == token.NOT {
+						v, pol = u.X, false
 					}
-				}
-				if bo, ok := ifi.Cond.(*ssa.BinOp); ok && bo.Op == token.LEQ {
-					// fid <= threshold : false edge
-					if EdgeDominates(b, b.Succs[1], r.Block()) && AccessPath(bo.Y) != "?" {
-						if ph, ok := bo.Y.(*ssa.Phi); ok && ph.Comment == "maxValid" {
+					if isFieldLoad(v, "manifest.ValueLogMeta", "Valid") {
+						idx := 1 // invalid edge
+						if !pol {
+							idx = 0
+						}
+						if EdgeDominates(b, b.Succs[idx], r.Block()) {
 							g1 = true
 						}
 					}
 				}
+				if !g1 {
+					idArg := Unwrap(r.Common().Args[len(r.Common().Args)-1])
+					classify := func(bo *ssa.BinOp) (string, bool, bool) {
+						x, y := Unwrap(bo.X), Unwrap(bo.Y)
+						if _, isC := y.(*ssa.Const); x == idArg && !isC {
+							return "fid:thr", false, true
+						}
+						if _, isC := x.(*ssa.Const); y == idArg && !isC {
+							return "fid:thr", true, true
+						}
+						return "", false, false
+					}
+					reach := func(sg int) bool {
+						env := &SignEnv{Classify: classify, Signs: map[string]int{"fid:thr": sg}, Depth: 1}
+						return env.Reaches(g, r.(ssa.Instruction))
+					}
+					g1 = !reach(-1) && !reach(0) && reach(1)
+				}
+				c.Decide(g1, r4, key(fn, fmt.Sprintf("Remove[%d]#guard", n)), r.Pos(), 2, "removal is guarded by !meta.Valid or fid > maxValid", "value-log segment removal during reconciliation is not guarded by the manifest validity / max-valid-fid test")
 			}
-			c.Decide(g1, r4, key(fn, fmt.Sprintf("Remove[%d]#guard", i+1)), r.Pos(), 2, "removal is guarded by !meta.Valid or fid > maxValid", "value-log segment removal during reconciliation is not guarded by the manifest validity / max-valid-fid test")
 		}
+		c.Decide(n >= 2, r4, key(fn, "has:Manager.Remove"), fn.Pos(), n+1, fmt.Sprintf("%d removal site(s)", n), fmt.Sprintf("expected at least 2 call(s) to Manager.Remove in (*NoKV.valueLog).reconcileManifest (invalidated segments and orphans above the highest valid fid), found %d", n))
 	}
 }
 
@@ -542,8 +576,17 @@ func gcLiveness(c *Ctx, rule string, proc *ssa.Function) {
 	c.Decide(mustSkipBad == "", rule, key(proc, "reinsert-unreachable-when-superseded"), g.Pos(), explored, "for all 27 orderings of (bucket, fid, offset): a record whose live pointer is in another bucket or at a newer (fid, offset) is never re-inserted", "a superseded record can be re-inserted ("+mustSkipBad+"): GC brings back an overwritten value / moves a key to the wrong bucket")
 	c.Decide(keepBad == "", rule, key(proc, "reinsert-reachable-when-live"), g.Pos(), explored, "the record the LSM points at is re-inserted", "the live record ("+keepBad+") is not re-inserted: GC drops a live value when it deletes the file")
 	// copies from the scanned entry (parameter 0)
-	if len(proc.Params) >= 1 {
-		e := proc.Params[0]
+	var scanned *ssa.Parameter
+	for _, p := range proc.Params {
+		if TypeName(p.Type()) == "kv.Entry" && scanned == nil {
+			scanned = p
+		}
+	}
+	if scanned == nil && len(proc.Params) >= 1 {
+		scanned = proc.Params[0]
+	}
+	if scanned != nil {
+		e := scanned
 		copied := map[string]bool{}
 		AllInstrs(proc, false, func(in ssa.Instruction) {
 			st, ok := in.(*ssa.Store)
